@@ -23,7 +23,7 @@ PROP = dict(
              # the closing sweep with handlers that write or close inside OnClose, injected I/O failures), judged here only
              # by the shutdown-related oracles; added by the orchestrator after a seeded change (second OnClose from a
              # failing write inside OnClose during the sweep) was caught by C04 but not by this check
-             dict(cmd="drv-loop", family="loop", variant="sweep", shrink=False, netns=True, args=["-focus", "fault", "-n", "30"],
+             dict(cmd="drv-loop", family="loop", variant="sweep", shrink=False, netns=True, confirm=True, args=["-focus", "fault", "-n", "30"],
                   sites=["^lifecycle$", "^shutdown$", "^loop-stuck$", "^engine-start$", "^fd-leak$"],
                   unix_swap=LOOP_SWAP, timeout=dict(quick=600, thorough=3000))],
     rule="a case is one engine life on the REAL engine built from the current tree: configuration sampled from {tcp, unix, udp} x "
